@@ -15,15 +15,17 @@ MOD = "vf.checks.c14"
 
 def _scope(tier):
     if tier == "thorough":
-        return dict(pa_n=13, pa_mixed_n=8, tn_n=10, mn_n=8, ee_n=8, cli_n=7)
+        return dict(pa_n=15, pa_mixed_n=9, tn_n=12, mn_n=9, ee_n=9, cli_n=8)
     return dict(pa_n=11, pa_mixed_n=7, tn_n=9, mn_n=7, ee_n=7, cli_n=6)
 
 
 def shards(tier):
     sc = _scope(tier)
     out = []
-    for pre in itertools.product("ACT", repeat=2):
+    for pre in itertools.product("ACT", repeat=4 if tier == "thorough" else 2):
         out.append(dict(part="polya", alpha="ACT", pre="".join(pre), nmax=sc["pa_n"]))
+    if tier == "thorough":
+        out.append(dict(part="polya_short4", alpha="ACT"))
     out.append(dict(part="polya_short", alpha="ACT"))
     for pre in "AaNGT":
         out.append(dict(part="polya", alpha="AaNGT", pre=pre, nmax=sc["pa_mixed_n"]))
@@ -108,6 +110,9 @@ def run_shard(d):
                                    polyA_start=poly_a_trim_index(d["pre"] + "CAAAATAAAA"[: max(0, d["nmax"] - len(d["pre"]))])))
     elif part == "polya_short":
         for s in ("", "A", "C", "T"):
+            polya_case(s, True)
+    elif part == "polya_short4":
+        for s in _strings("ACT", "", 3):
             polya_case(s, True)
     elif part == "polya_boundary":
         # long tails at the 20 % boundary: k other bases inside 5k-1, 5k, 5k+1 total, all placements of the others for k<=2
